@@ -19,7 +19,7 @@ LEVEL = "other"
 ENGINE = "crosshair+z3"
 TECHNIQUE = "CrossHair-enumerated symbolic contents, digest collisions, link and membership bits over the real find_duplicates"
 FUNCTIONS = ["codebasin/report.py:find_duplicates"]
-STUBS = ["report.hashlib.file_digest -> digest label chosen by the symbolic digest class of the content (equal content => equal digest, "
+STUBS = ["real/: none (real files, real SHA-512, real filecmp)", "dup/: report.hashlib.file_digest -> digest label chosen by the symbolic digest class of the content (equal content => equal digest, "
          "different contents MAY collide)", "report.filecmp.cmp -> byte comparison of the in-memory contents",
          "report.open / report.Path -> MemFS (is_symlink answers from the symbolic link bits)"]
 ASSUMPTIONS = ["SHA-512 and filecmp themselves are outside; the print order of groups is outside (groups are compared as sets)",
@@ -139,6 +139,62 @@ def h_dup(c0: int, c1: int, c2: int, c3: int, c4: int, g0: int, g1: int, g2: int
     return why is None
 
 
+REAL_POOL = [b"", b"x" * 70000, b"x" * 69999 + b"y", b"x" * 70001, b"line\r\nline\n", b"line\nline\n"]
+
+
+def h_real(c0: int, c1: int, c2: int, c3: int, l0: bool) -> bool:
+    """
+    pre: 0 <= c0 < 6 and 0 <= c1 < 6 and 0 <= c2 < 6 and 0 <= c3 < 6 and c0 == P["fix"]
+    post: _
+    """
+    # the real hashlib / filecmp / open on real files: contents that differ only in the last byte, only in length,
+    # beyond any read buffer, or only in line endings
+    import os
+    import shutil
+    import tempfile
+
+    cs = []
+    for v in (c0, c1, c2, c3):
+        for k in range(6):
+            if v == k:
+                cs.append(k)
+    STATS["compared"] += 1
+    if P.get("_twin"):
+        return False
+    why = None
+    with scen.untraced():
+        import codebasin.report as report
+
+        d = os.path.realpath(tempfile.mkdtemp(prefix="vp_c16_"))
+        try:
+            names = ["a.c", "b.c", "sub/c.c", "sub/d.h"]
+            os.makedirs(d + "/sub")
+            content = {}
+            for n, ci in zip(names, cs):
+                with open(os.path.join(d, n), "wb") as f:
+                    f.write(REAL_POOL[ci])
+                content[os.path.join(d, n)] = REAL_POOL[ci]
+            members = list(content)
+            if l0:
+                os.symlink(os.path.join(d, "a.c"), os.path.join(d, "lnk.c"))
+                members.append(os.path.join(d, "lnk.c"))
+            got = {frozenset(str(p) for p in g) for g in report.find_duplicates(memfs.FakeCodeBase(members))}
+            part = {}
+            for m, b in content.items():
+                part.setdefault(b, set()).add(m)
+            want = {frozenset(v) for v in part.values() if len(v) >= 2}
+            if got != want:
+                why = "groups %s != byte-wise partition %s" % (sorted(sorted(os.path.basename(x) for x in g) for g in got),
+                                                              sorted(sorted(os.path.basename(x) for x in g) for g in want))
+        except Exception as e:
+            why = "exception " + repr(e)
+        finally:
+            shutil.rmtree(d, ignore_errors=True)
+    if P.get("_replay"):
+        LAST.update(content_index=cs, link=bool(l0), why=why)
+    return why is None
+
+
 def replay(obd, cex):
     """native re-run; when the counterexample needs no digest collision, also real files + real SHA-512/filecmp on disk"""
     import os
@@ -150,6 +206,13 @@ def replay(obd, cex):
     mod.P = dict(obd["params"], _twin=False, _replay=True)
     mod.LAST = {}
     args, kw = cex
+    if obd["func"] == "h_real":
+        try:
+            ok = h_real(*args, **kw)
+        except Exception as e:
+            ok = False
+            LAST.update(exception=repr(e))
+        return dict(reproduced=(ok is False), detail=dict(LAST))
     try:
         ok = h_dup(*args, **kw)
     except Exception as e:
@@ -193,6 +256,8 @@ def obligations(tier, known):
         for b in range(npool):
             obs.append(Ob(id="dup/n%d/c0=%d,c1=%d" % (n, a, b), kind="ch", module=__name__, func="h_dup",
                           params=dict(n=n, npool=npool, fix=[a, b], xbits=xb), timeout=900, group="dup"))
+    for a in range(6):
+        obs.append(Ob(id="real/c0=%d" % a, kind="ch", module=__name__, func="h_real", params=dict(fix=a), timeout=600, group="real"))
     return obs
 
 
